@@ -49,13 +49,17 @@ RECURSIVE Ascending(_, _)
 Ascending(Zs, lo) == IF {x \in Zs : x >= lo} = {} THEN <<>>
                      ELSE LET m == CHOOSE x \in Zs : x >= lo /\ \A y \in Zs : y >= lo => x <= y IN <<m>> \o Ascending(Zs, m + 1)
 
+(* a module that imports the shared counter (by name or as a module) also exports `via`, a function that bumps the counter *)
+(* through the module's own import binding; its importers call it - from a module that may never have bound the counter      *)
+(* itself, or has bound the name to something else                                                                          *)
+HasVia(i) == ~IsCounter(i) /\ i \notin pr.bare /\ <<i, pr.n>> \in pr.edges /\ pr.form[<<i, pr.n>>] # "type"
 InSub(k) == pr.lay # 0 /\ k >= pr.lay
 Path(i, j) == (IF pr.spell[<<i, j>>] = "dotslash" THEN "./" ELSE "") \o (IF InSub(j) /\ ~InSub(i) THEN "sub/" ELSE "") \o MName(j)
 ImportOf(i, j) ==
     IF pr.form[<<i, j>>] = "mod" THEN [k |-> "import", form |-> "mod", path |-> Path(i, j), names |-> <<>>]
     ELSE IF pr.form[<<i, j>>] = "type" THEN [k |-> "import", form |-> "type", path |-> Path(i, j), names |-> <<TName(j)>>]
     ELSE [k |-> "import", form |-> "names", path |-> Path(i, j),
-          names |-> IF IsCounter(j) THEN (IF pr.again = "names" THEN <<"bump", "cur">> ELSE <<"bump", "cur", "count">>) ELSE <<"val", "peek">>]
+          names |-> IF IsCounter(j) THEN (IF pr.again = "names" THEN <<"bump", "cur">> ELSE <<"bump", "cur", "count">>) ELSE <<"val", "peek">> \o (IF HasVia(j) THEN <<"via">> ELSE <<>>)]
 (* how module i reaches a member of module j, depending on the import form *)
 Member(i, j, name) == IF pr.form[<<i, j>>] = "mod" THEN Fld(V(MName(j)), name) ELSE V(name)
 
@@ -68,6 +72,7 @@ UseOf(i, j) ==
                               \o <<Print(Call(Member(i, j, "cur"), <<>>))>>
     ELSE IF j \in pr.bare THEN <<>>
     ELSE <<Print(Member(i, j, "val")), Print(Call(Member(i, j, "peek"), <<>>))>>
+         \o (IF HasVia(j) THEN <<Print(Call(Member(i, j, "via"), <<>>))>> ELSE <<>>)
 
 (* the second import of the counter module by module i, and a read through it *)
 Again(i) ==
@@ -106,7 +111,9 @@ ModBody(i) ==
          \o (IF i \in pr.bare THEN <<>> ELSE
              <<[k |-> "let", n |-> "val", ty |-> "int", e |-> I(100 * i), mod |-> FALSE, const |-> FALSE, export |-> TRUE],
                [k |-> "let", n |-> "peek", ty |-> "fn() -> int", mod |-> FALSE, const |-> FALSE, export |-> TRUE,
-                e |-> Fn("peek", <<>>, "int", <<Ret(Bin("+", V("val"), I(1)))>>)]>>)
+                e |-> Fn("peek", <<>>, "int", <<Ret(Bin("+", V("val"), I(1)))>>)]>>
+             \o (IF HasVia(i) THEN <<[k |-> "let", n |-> "via", ty |-> "fn() -> int", mod |-> FALSE, const |-> FALSE, export |-> TRUE,
+                                       e |-> Fn("via", <<>>, "int", <<Ret(Call(Member(i, pr.n, "bump"), <<>>))>>)]>> ELSE <<>>))
          \o <<Tag(i, "end")>>
 
 Project == [entry |-> 1, mods |-> [i \in 1..pr.n |-> [name |-> MName(i), dir |-> (IF InSub(i) THEN "sub/" ELSE ""), body |-> ModBody(i)]]]
